@@ -72,6 +72,8 @@ def ref_prov(case, nodes, s, org):
             s2, pv = sub_prov(ru["pat"], ru["tpl"], s)
             org = [None if p is None else org[p] for p in pv]
             s = s2
+            if len(s) > G.LEN_CAP:
+                raise G.Diverges()
         elif k == "iter":
             rounds = 0
             while True:
@@ -209,6 +211,7 @@ class C14(G.C13):
                 return {"reparsed": {"err": "unmodelled"}}
             return {"reparsed": [G.jytok(t) for t in back.tokens]}
         obs = self.full(case)
+        self.model_request(case)          # built now, while the observation is at hand
         if "err" in obs:
             return {"err": obs["err"]}
         runs = []
@@ -223,6 +226,9 @@ class C14(G.C13):
         if case["kind"] == "yyparse":
             return {"op": "yyparse", "s": case["s"]}
         return super().model_request(case)
+
+    def build_request(self, case):
+        return super().build_request(case)
 
     def model_compare(self, case, expected, answer):
         if case["kind"] in ("yy", "yyparse"):
